@@ -30,6 +30,10 @@ Definition socks_wiring_ok : bool :=
   str_list_eqb socks_request_ctor ["Ver=arg0"; "NMethods=byte(len(arg1))"; "Methods=arg1"]%string &&
   str_list_eqb socks_request_wire ["recv.Ver"; "recv.NMethods"; "recv.Methods..."]%string &&
   (socks_request_writes =? 1) &&
+  (* one Scanner is shared by all workers of the engine: the reply is decoded into a value that
+     belongs to this call alone, and Scan neither writes to the Scanner nor hands out pointers into it *)
+  socks_reply_fresh_local &&
+  str_list_eqb socks_scan_writes_scanner [] && str_list_eqb socks_scan_scanner_field_addrs [] &&
   (* the record's address and port are the request's *)
   String.eqb socks_result_ip_from "request.DstIP.String()" &&
   String.eqb socks_result_port_from "request.DstPort" &&
